@@ -46,6 +46,7 @@ View == <<phase, n, t, enc, dec, key, comAlt, sel>>
 
 Alt  == 0
 Glob == 99
+Forg == 98   \* wrong values a DISHONEST DEALER put into the package before deriving the global challenge from it
 Pos  == 1..n
 
 HonestEnc(p) == [I |-> p, V |-> p, C |-> Glob, R |-> p, VG |-> p, VH |-> p]
@@ -62,8 +63,12 @@ HonestPrf(p) == [G |-> p, H |-> p, xG |-> p, xH |-> p, C |-> Glob, R |-> p, VG |
 (* requirement layer *)
 ComsOK        == comAlt = {}
 EncTouched(p) == enc[p] # HonestEnc(p) \/ key[p] # p \/ ~ComsOK
-AnyEncTouched == \E q \in Pos : EncTouched(q)
-EncMust(p)    == IF EncTouched(p) THEN "rej" ELSE IF AnyEncTouched THEN "free" ELSE "acc"
+\* everything that enters the global challenge is the honest dealer's
+GCHonest      == ComsOK /\ \A q \in Pos : enc[q].V = q /\ enc[q].VG = q /\ enc[q].VH = q
+\* an untouched share must verify as long as its whole verification context (commitments, key, global challenge)
+\* is the honest one - altering only ANOTHER trustee's challenge, response or key must not drop it; if another
+\* share's value or commitments changed, the global challenge changed with it and the text leaves the verdict open
+EncMust(p)    == IF EncTouched(p) THEN "rej" ELSE IF GCHonest THEN "acc" ELSE "free"
 
 DecTouched(p) == dec[p] # HonestDec(p) \/ key[p] # p \/ enc[p].V # p \/ enc[p].I # p
 DecMust(p)    == IF DecTouched(p) THEN "rej" ELSE "acc"
@@ -87,7 +92,8 @@ DleqMust(p)   == IF PrfTouched(p) THEN "rej" ELSE "acc"
 SH(p) == IF ComsOK /\ enc[p].I \in Pos THEN enc[p].I ELSE Alt
 
 \* computeGlobalChallenge hashes commitments, all S.V, all VG, all VH in order
-GCOrig == ComsOK /\ \A q \in Pos : enc[q].V = q /\ enc[q].VG = q /\ enc[q].VH = q
+\* (Forg: the dealer itself hashed these values, so the challenge it handed out matches the recomputation)
+GCOrig == ComsOK /\ \A q \in Pos : enc[q].V \in {q, Forg} /\ enc[q].VG \in {q, Forg} /\ enc[q].VH \in {q, Forg}
 
 EncImpl(p) ==
   LET e == enc[p] IN
@@ -157,7 +163,9 @@ PairMuts(ks) == {m \in {M(k, p, q) : k \in ks, p \in Pos, q \in Pos} : m.p < m.q
 \*  constant, every index has the same commitment and any single share recovers the secret)
 \* "forge": the share value replaced AND a proof simulated for the false statement (challenge and response chosen
 \* first, commitments computed from them): every verification equation holds, only the recomputed challenge differs
-EncMuts == {M(f, p, 0) : f \in ShareFields \cup {"key", "forge"}, p \in Pos}
+\* "dforge": a dishonest DEALER gives trustee p a wrong share with a simulated proof carrying its OWN challenge and
+\* derives the global challenge of everybody else's (honest) proofs from the package including the forged values
+EncMuts == {M(f, p, 0) : f \in ShareFields \cup {"key", "forge", "dforge"}, p \in Pos}
       \cup (IF t >= 2 THEN {M("I", p, i) : p \in Pos, i \in (1..(n + 1))} \ {M("I", p, p) : p \in Pos} ELSE {})
       \cup {M("com", j, 0) : j \in 0..(t - 1)}
       \cup PairMuts({"swapS", "swapP", "swapB"})
@@ -176,6 +184,8 @@ PrfMuts == {M(f, p, 0) : f \in {"G", "H", "xG", "xH", "C", "R", "VG", "VH", "swa
 RecAfter(f, m) ==
   CASE m.k \in ShareFields \cup {"oV", "sH", "gc", "G", "H", "xG", "xH"} -> SetField(f, m.p, m.k, Alt)
     [] m.k = "I"      -> SetField(f, m.p, "I", m.q)
+    [] m.k = "dforge" -> [f EXCEPT ![m.p] = [fl \in DOMAIN f[m.p] |-> IF fl \in {"V", "VG", "VH"} THEN Forg
+                                                                   ELSE IF fl \in {"C", "R"} THEN Alt ELSE f[m.p][fl]]]
     [] m.k = "forge"  -> [f EXCEPT ![m.p] = [fl \in DOMAIN f[m.p] |-> IF fl \in ShareFields THEN Alt ELSE f[m.p][fl]]]
     [] m.k = "swapS"  -> SwapFields(f, m.p, m.q, {"I", "V"})
     [] m.k = "swapP"  -> SwapFields(f, m.p, m.q, {"C", "R", "VG", "VH"})
